@@ -714,77 +714,6 @@ func (c *Ctx) scratchOf(obj types.Object) (int, bool) {
 var BoolLocalDef func(info *types.Info, id *ast.Ident) ast.Expr
 
 func (c *Ctx) atom(e ast.Expr, in []cst) (t, f []cst) {
-	if id, ok := ast.Unparen(e).(*ast.Ident); ok && BoolLocalDef != nil && c.boolDepth < 3 {
-		if def := BoolLocalDef(c.Info, id); def != nil {
-			c.boolDepth++
-			t, f = c.cond(def, in)
-			c.boolDepth--
-			return t, f
-		}
-	}
-	if id, ok := ast.Unparen(e).(*ast.Ident); ok && len(c.autoAtom) > 0 {
-		if obj := c.Info.Uses[id]; obj != nil {
-			if idx, has := c.autoAtom[obj]; has {
-				for _, x := range in {
-					tr := &trace{pos: e.Pos(), prev: x.t}
-					if x.s.V[idx] != False {
-						s := x.s
-						s.V[idx] = True
-						t = append(t, cst{s, tr})
-					}
-					if x.s.V[idx] != True {
-						s := x.s
-						s.V[idx] = False
-						f = append(f, cst{s, tr})
-					}
-				}
-				return dedup(t), dedup(f)
-			}
-		}
-	}
-	// `v != nil` / `v == nil` on an error local the rule does not track itself
-	if x, notNil, ok := IsNilCompare(c.Info, e); ok && c.Depth >= 0 {
-		if id, isID := ast.Unparen(x).(*ast.Ident); isID {
-			if obj, isVar := c.Info.Uses[id].(*types.Var); isVar && !obj.IsField() && isErrorT(obj.Type()) {
-				claimed := false
-				if c.spec.Atom != nil {
-					if _, _, ok := c.spec.Atom(c, e); ok {
-						claimed = true
-					}
-				}
-				if !claimed {
-					if idx, ok := c.atomOf(obj, true); ok {
-						for _, x := range in {
-							v := x.s.V[idx]
-							if !notNil {
-								v = -v
-							}
-							tr := &trace{pos: e.Pos(), prev: x.t}
-							if v != False {
-								s := x.s
-								if notNil {
-									s.V[idx] = True
-								} else {
-									s.V[idx] = False
-								}
-								t = append(t, cst{s, tr})
-							}
-							if v != True {
-								s := x.s
-								if notNil {
-									s.V[idx] = False
-								} else {
-									s.V[idx] = True
-								}
-								f = append(f, cst{s, tr})
-							}
-						}
-						return dedup(t), dedup(f)
-					}
-				}
-			}
-		}
-	}
 	if tv, ok := c.Info.Types[e]; ok && tv.Value != nil {
 		// constant condition
 		if tv.Value.String() == "true" {
@@ -794,37 +723,69 @@ func (c *Ctx) atom(e ast.Expr, in []cst) (t, f []cst) {
 			return nil, in
 		}
 	}
+	split := func(idx int, neg bool) ([]cst, []cst) {
+		var t, f []cst
+		for _, x := range in {
+			v := x.s.V[idx]
+			if neg {
+				v = -v
+			}
+			tr := &trace{pos: e.Pos(), prev: x.t}
+			if v != False {
+				s := x.s
+				if neg {
+					s.V[idx] = False
+				} else {
+					s.V[idx] = True
+				}
+				t = append(t, cst{s, tr})
+			}
+			if v != True {
+				s := x.s
+				if neg {
+					s.V[idx] = True
+				} else {
+					s.V[idx] = False
+				}
+				f = append(f, cst{s, tr})
+			}
+		}
+		return dedup(t), dedup(f)
+	}
+	// 1. the rule's own atoms
 	if c.spec.Atom != nil {
 		if idx, neg, ok := c.spec.Atom(c, e); ok {
 			if idx < 0 || idx >= MaxAtoms {
 				prog.Fatalf("pathsim: atom index %d out of range", idx)
 			}
-			for _, x := range in {
-				v := x.s.V[idx]
-				if neg {
-					v = -v
-				}
-				tr := &trace{pos: e.Pos(), prev: x.t}
-				if v != False {
-					s := x.s
-					if neg {
-						s.V[idx] = False
-					} else {
-						s.V[idx] = True
-					}
-					t = append(t, cst{s, tr})
-				}
-				if v != True {
-					s := x.s
-					if neg {
-						s.V[idx] = True
-					} else {
-						s.V[idx] = False
-					}
-					f = append(f, cst{s, tr})
+			return split(idx, neg)
+		}
+	}
+	// 2. a boolean local with one (pure) definition is evaluated as that definition
+	if id, ok := ast.Unparen(e).(*ast.Ident); ok && BoolLocalDef != nil && c.boolDepth < 3 {
+		if def := BoolLocalDef(c.Info, id); def != nil {
+			c.boolDepth++
+			t, f = c.cond(def, in)
+			c.boolDepth--
+			return t, f
+		}
+	}
+	// 3. automatic atoms: a boolean that received its value from the returns of a simulated call
+	if id, ok := ast.Unparen(e).(*ast.Ident); ok && len(c.autoAtom) > 0 {
+		if obj := c.Info.Uses[id]; obj != nil {
+			if idx, has := c.autoAtom[obj]; has {
+				return split(idx, false)
+			}
+		}
+	}
+	// 4. `v != nil` / `v == nil` on an error local the rule does not track itself
+	if x, notNil, ok := IsNilCompare(c.Info, e); ok {
+		if id, isID := ast.Unparen(x).(*ast.Ident); isID {
+			if obj, isVar := c.Info.Uses[id].(*types.Var); isVar && !obj.IsField() && isErrorT(obj.Type()) {
+				if idx, ok := c.atomOf(obj, true); ok {
+					return split(idx, !notNil)
 				}
 			}
-			return dedup(t), dedup(f)
 		}
 	}
 	return in, in
@@ -1028,6 +989,19 @@ func (c *Ctx) stmt(s ast.Stmt, in []cst, label string) flow {
 						v = False
 					case isErr && tv.IsNil():
 						v = False // "err != nil" is false
+					}
+				}
+				if call, ok := res.(*ast.CallExpr); ok && isErr {
+					// fmt.Errorf / errors.New never return nil
+					if sel, ok := ast.Unparen(call.Fun).(*ast.SelectorExpr); ok {
+						if pid, ok := sel.X.(*ast.Ident); ok {
+							if pn, ok := c.Info.Uses[pid].(*types.PkgName); ok {
+								p := pn.Imported().Path()
+								if (p == "fmt" && sel.Sel.Name == "Errorf") || (p == "errors" && sel.Sel.Name == "New") {
+									v = True
+								}
+							}
+						}
 					}
 				}
 				var src = -1
